@@ -19,7 +19,7 @@ RULE = ("(operator, operand kinds incl. reflected forms and int/bool/LinCombBool
 
 ARITH = {"add", "sub", "mul", "truediv", "floordiv", "mod", "divmod", "lshift", "rshift", "neg", "pos", "abs"}
 NONLINEAR = set(refsem.BINARY + refsem.UNARY + refsem.TERNARY) - {"add", "sub", "neg", "pos"}
-OPS = refsem.BINARY + refsem.UNARY + refsem.TERNARY + ["check_positive_n"]
+OPS = refsem.BINARY + refsem.UNARY + refsem.TERNARY + ["check_positive_n", "pow3"] + refsem.PROTOCOL
 
 
 def judge(cfg, name, args):
@@ -34,6 +34,12 @@ def judge(cfg, name, args):
         res, prog = _judge(cfg, name, args, "ignore")
         if res is not None:
             res = (res[0], "with ignore_errors(True): " + res[1])
+    if res is None and any(a[0] in "IBF" for a in args):
+        # a history with a failure in it: some other call on the operand was refused (division by zero, failed assertion,
+        # unsupported operand, out-of-range width or index ...), the program caught the exception and went on with this operation
+        res, prog = _judge(cfg, name, args, "after-failure")
+        if res is not None:
+            res = (res[0], "after a refused call that the program caught: " + res[1])
     if res is None and len(args) == 2 and args[0][0] in "IBF" and list(args[0]) == list(args[1]):
         res, prog = _judge(cfg, name, args, "alias")
         if res is not None:
@@ -48,7 +54,8 @@ def _judge(cfg, name, args, variant):
         return None, None        # not a boolean: no such input exists outside error suppression
     vals = [a[2] for a in args]
     cfg = dict(cfg)
-    prog = opgrid.single(cfg, name, args, "ignore" if variant == "ignore" else "normal", inplace=variant == "inplace", alias=variant == "alias")
+    prog = opgrid.single(cfg, name, args, "ignore" if variant == "ignore" else "normal", inplace=variant == "inplace", alias=variant == "alias",
+                         prefail=(int(core.jdigest([name, ts, [str(v) for v in vals]]), 16) % 16) if variant == "after-failure" else None)
     m = ir.run_program(prog)
     cfg["_p"] = m.p
     exp = refsem.ref(name, vals, ts, cfg)
